@@ -217,4 +217,121 @@ theorem unwindFrom_uncaught (F0 : List Frame) (bottom : Option Nat) (ds : List (
         obtain ⟨hd, rest, hg, hh, hc, hle, pre1⟩ := stackUnwind_pre F0 g d bottom pre f1 hsu
         obtain ⟨hf, d', hd', hp, hb, -⟩ := ih _ _ (continue_pre F0 f1 hd rest ip' hh hc pre1) h
         exact ⟨hf, d', by omega, hp, hb, fun hnil => by rw [hnil] at hg; cases hg⟩
+/-! ### nested interpreter loops (a native called back) -/
+
+/-- a nested loop only accepts a handler of a frame pushed above its bottom -/
+theorem stackUnwind_above (g : Fiber) (b : Nat) (f' : Fiber)
+    (h : stackUnwind g (some b) = .potentiallyHandled f') :
+    ∃ hd rest, g.handlers = hd :: rest ∧ b < hd.depth := by
+  unfold stackUnwind at h
+  cases hh : g.handlers with
+  | nil => rw [hh] at h; simp at h
+  | cons hd rest =>
+    rw [hh] at h
+    simp only [Option.getD_some, Gen.handlerBelongsToLoop, decide_eq_true_eq] at h
+    split at h
+    · exact ⟨hd, rest, rfl, by omega⟩
+    · cases h
+
+theorem unwindFrom_caught_above (F0 : List Frame) (b : Nat) (ds : List (Bool × Nat)) (g : Fiber) (d : Nat)
+    (pre : Pre F0 g d) (bt : List (Nat × Nat)) (f' : Fiber)
+    (h : unwindFrom (some b) g ds = .caught bt f') : b < f'.frames.length := by
+  induction ds generalizing g d with
+  | nil =>
+    simp only [unwindFrom] at h
+    split at h <;> cases h
+  | cons dec ds ih =>
+    obtain ⟨m, ip'⟩ := dec
+    cases m with
+    | true =>
+      simp only [unwindFrom] at h
+      split at h
+      · cases h
+      · cases h
+      · rename_i f1 hsu
+        obtain ⟨hd0, rest0, hg0, hb⟩ := stackUnwind_above g b f1 hsu
+        obtain ⟨hd, rest, hg, hh, -, -, pre1⟩ := stackUnwind_pre F0 g d (some b) pre f1 hsu
+        rw [hg0] at hg
+        injection hg with e1 e2
+        subst e1
+        split at h
+        · rename_i bt' f2 hfin
+          injection h with hb' hf
+          subst hf
+          have hs := pre1.hs
+          rw [hh] at hs
+          simp only [sortedFrom, Bool.and_eq_true, decide_eq_true_eq] at hs
+          have hn := pre1.len
+          simp only [finishUnwind, hh, Option.some.injEq, Prod.mk.injEq] at hfin
+          rw [← hfin.2]
+          simp only [List.length_take, hn]
+          omega
+        · cases h
+    | false =>
+      simp only [unwindFrom] at h
+      split at h
+      · cases h
+      · cases h
+      · rename_i f1 hsu
+        obtain ⟨hd, rest, -, hh, hc, -, pre1⟩ := stackUnwind_pre F0 g d (some b) pre f1 hsu
+        exact ih _ _ (continue_pre F0 f1 hd rest ip' hh hc pre1) h
+
+/-- a handler a nested loop accepts is accepted by a search without bottom -/
+theorem stackUnwind_none_of_some (g : Fiber) (b : Nat) (f' : Fiber)
+    (h : stackUnwind g (some b) = .potentiallyHandled f') : stackUnwind g none = .potentiallyHandled f' := by
+  obtain ⟨hd, rest, hg, hb⟩ := stackUnwind_above g b f' h
+  unfold stackUnwind at h ⊢
+  rw [hg] at h ⊢
+  simp only [Option.getD_some, Option.getD_none, Gen.handlerBelongsToLoop, decide_eq_true_eq] at h ⊢
+  rw [if_pos hb] at h
+  rw [if_pos (by omega)]
+  exact h
+
+theorem stackUnwind_some_cases (g : Fiber) (b : Nat) :
+    stackUnwind g (some b) = .unwindStopped ∨ ∃ f', stackUnwind g (some b) = .potentiallyHandled f' := by
+  unfold stackUnwind
+  cases g.handlers with
+  | nil => exact Or.inl rfl
+  | cons hd rest =>
+    simp only
+    split
+    · exact Or.inr ⟨_, rfl⟩
+    · exact Or.inl rfl
+
+/-- One nested loop in front of a continuation `K` that agrees with the single search: the whole
+agrees with the single search. -/
+theorem unwindFrom_some_then (b : Nat) (K : Fiber → List (Bool × Nat) → Outcome)
+    (hK : ∀ g ds, K g ds = unwindFrom none g ds) (ds : List (Bool × Nat)) (g : Fiber) :
+    (match unwindFrom (some b) g ds with
+     | .stopped g' rest => K g' rest
+     | o => o) = unwindFrom none g ds := by
+  induction ds generalizing g with
+  | nil =>
+    rcases stackUnwind_some_cases g b with hs | ⟨f', hs⟩
+    · simp only [unwindFrom, hs]; exact hK g []
+    · have hn := stackUnwind_none_of_some g b f' hs
+      simp only [unwindFrom, hs, hn]
+  | cons dec ds ih =>
+    obtain ⟨m, ip'⟩ := dec
+    rcases stackUnwind_some_cases g b with hs | ⟨f', hs⟩
+    · cases m <;> (simp only [unwindFrom, hs]; exact hK g _)
+    · have hn := stackUnwind_none_of_some g b f' hs
+      cases m with
+      | true =>
+        simp only [unwindFrom, hs, hn]
+        cases finishUnwind f' with
+        | none => rfl
+        | some p => rfl
+      | false =>
+        simp only [unwindFrom, hs, hn]
+        apply ih
+
+theorem unwindLoops_eq (bs : List Nat) (g : Fiber) (ds : List (Bool × Nat)) :
+    unwindLoops bs g ds = unwindFrom none g ds := by
+  induction bs generalizing g ds with
+  | nil => rfl
+  | cons b bs ih =>
+    simp only [unwindLoops]
+    exact unwindFrom_some_then b (unwindLoops bs) (fun g ds => ih g ds) ds g
+
 end LaytheVerif.LinesUnwind
